@@ -105,6 +105,8 @@ func (*Keeper).ApplyMessageWithConfig
     requires gaslimit: msg_gas(msg) <= 9223372036854775807
     ensures gasused: result.1 == nil ==> result.0 != nil && result.0.GasUsed == imax(floor, consumed - refund)
     ensures bounded: result.1 == nil ==> result.0.GasUsed <= gas
+    // (exported to callers - `gasused` above speaks about the callee's own call history and is not)
+    ensures nonnil: result.1 == nil ==> result.0 != nil
     // minGasMultiplier <= 1: the floor is at most the gas limit, so neither later overflow check can fire
     call TruncateInt use MulAtMostOneC07(msg_gas(msg), ret(GetMinGasMultiplier, 1, 0))
     call LegacyMaxDec use MulAtMostOneC07(msg_gas(msg), ret(GetMinGasMultiplier, 1, 0))
